@@ -131,7 +131,11 @@ func c06JudgeOutcome(t *ssoTruth, o ssoOutcome) c06Verdict {
 // then p is sent; mode "unregistered": valid request accepted, SP A is unregistered (environment event),
 // then p is sent - nothing may be accepted for SP A any more.
 func c06History(p ssoP, mode string) c06Verdict {
-	w, req, t := ssoBuild(p)
+	// a signing-key fault planned for p applies to the JUDGED request, not to the earlier one
+	healthy := p
+	healthy.KeyFault = ""
+	w, _, _ := ssoBuild(healthy)
+	_, req, t := ssoBuild(p)
 	fp := ssoP{IssuerCfg: p.IssuerCfg, SSOEp: p.SSOEp, MetaEp: p.MetaEp, Transport: p.Transport, Host: p.Host}
 	if mode == "primed-other-host" {
 		fp.Host = ssoOtherHost // the earlier request reached the same provider under another host name
@@ -145,6 +149,9 @@ func c06History(p ssoP, mode string) c06Verdict {
 	}
 	if mode == "unregistered" {
 		w.Store.UnregisterSP(t.SPEntity)
+	}
+	if p.KeyFault != "" {
+		w.Store.FaultNext("GetResponseSigningKey", 1, p.KeyFault)
 	}
 	o := ssoRun(w, req)
 	if o.Rep.Panic != "" {
@@ -163,10 +170,14 @@ func c06History(p ssoP, mode string) c06Verdict {
 		}
 		return v
 	}
-	// primed: same necessary conditions as on a fresh provider
-	fresh := c06Judge(p)
-	if fresh.Class == "rejected" {
-		v.Clause = append(v.Clause, "accepted-after-an-earlier-valid-request-although-refused-on-a-fresh-provider")
+	// primed: the necessary conditions of acceptance hold for the judged request itself ...
+	v.Clause = append(v.Clause, c06JudgeOutcome(t, o).Clause...)
+	// ... and (healthy storage) nothing is accepted that a fresh provider refuses
+	if p.KeyFault == "" && len(v.Clause) == 0 {
+		fresh := c06Judge(p)
+		if fresh.Class == "rejected" {
+			v.Clause = append(v.Clause, "accepted-after-an-earlier-valid-request-although-refused-on-a-fresh-provider")
+		}
 	}
 	return v
 }
@@ -188,7 +199,7 @@ func runC06(ctx Ctx) int {
 		return rc
 	}
 	run := ev.NewRun("C06")
-	run.Rule = "full product of 96 IdP configurations (issuer x SSO endpoint x transport x storage lookup mode exact / case-insensitive / trailing-slash-tolerant) x every assignment of 13 message-validity dimensions with at most k deviations from the conformant default (k<=2 quick, k<=3 thorough); plus event histories on one provider for every k<=1 shape x config: (valid request accepted) ; p and (valid request accepted) ; SP unregistered ; p, and two-host histories (valid request under another host name) ; p for metadata endpoint default / fixed URL x Destination advertised here / advertised to the other host / absent; one execution = fresh provider + one real SSO request, clock pinned; oracle = necessary conditions of acceptance evaluated on generator ground truth"
+	run.Rule = "full product of 96 IdP configurations (issuer x SSO endpoint x transport x storage lookup mode exact / case-insensitive / trailing-slash-tolerant) x every assignment of 13 message-validity dimensions with at most k deviations from the conformant default (k<=2 quick, k<=3 thorough); plus event histories on one provider for every k<=1 shape x config: (valid request accepted) ; p and (valid request accepted) ; SP unregistered ; p, and two-host histories (valid request under another host name) ; p for metadata endpoint default / fixed URL x Destination advertised here / advertised to the other host / absent x signing-key lookup of the judged request healthy / failing in 5 ways; one execution = fresh provider + one real SSO request, clock pinned; oracle = necessary conditions of acceptance evaluated on generator ground truth"
 	run.Assume = []string{"ambiguous inputs (trailing bytes after a DEFLATE stream, raw XML on the Redirect binding, base64 with embedded newlines) are not in the alphabet: the statement does not say which way they must go"}
 	if ctx.Replay != "" {
 		var rp c06Replay
@@ -270,6 +281,12 @@ func runC06(ctx Ctx) int {
 					l = append(l, "Dest="+dest)
 				}
 				hist = append(hist, item{p, l})
+				// ... and with the signing-key lookup of the judged request failing
+				for _, kf := range []string{world.FaultError, world.FaultCtxDeadline, world.FaultNilRecord, world.FaultNoCert, world.FaultNoKey} {
+					pk := p
+					pk.KeyFault = kf
+					hist = append(hist, item{pk, append(append([]string{}, l...), "KeyFault="+kf)})
+				}
 			}
 		}
 		return true
